@@ -1,10 +1,11 @@
 (* C13 — Secret key material leaves a handle only via insecure or encrypted
    paths.  Statements only; proofs in proofs/SecretsProofs.v; model in
-   model/Secrets.v on top of model/Untrusted.v.
+   model/Secrets.v on top of model/Untrusted.v (all 37 key types whose parsers
+   model/Untrusted.v transcribes, and the fallback key for every other URL).
    Material types are ALL natural numbers (proto3 enums are open); 3 and 4 are
    ASYMMETRIC_PUBLIC and REMOTE of proto/tink.proto (public_or_remote). *)
 From Coq Require Import String Ascii List Arith NArith Bool.
-From Tink Require Import Bytes UntrustedConsts Untrusted UntrustedSpec UntrustedProofs Secrets SecretsProofs.
+From Tink Require Import Bytes UntrustedConsts Untrusted UntrustedSpec UntrustedProofs Secrets SecretsProofs SecretsWireProofs SecretsProofs2.
 Import ListNotations.
 Open Scope list_scope.
 Open Scope N_scope.
@@ -44,6 +45,34 @@ Theorem C13_no_secrets_apis_succeed_on_public_keysets :
 Proof. exact no_secrets_api_succeeds_on_public. Qed.
 Print Assumptions C13_no_secrets_apis_succeed_on_public_keysets.
 
+(* ... concluding with the handle: on a public/remote-only keyset the three
+   entry points return exactly the handle of the cleartext construction, and a
+   no-secrets API returns a handle iff the cleartext construction does and
+   every key is labelled public or remote. *)
+Theorem C13_no_secrets_apis_return_the_handle :
+  forall (L : stdlib) ks h,
+    handle_from_proto L (Some ks) = Ok h ->
+    Forall (fun k => public_or_remote (key_material k)) (ks_keys ks) ->
+    handle_no_secrets L (Some ks) = Ok h
+    /\ forall b, decode_keyset b = Some ks -> read_no_secrets L b = Ok h /\ read L b = Ok h.
+Proof. exact no_secrets_apis_return_the_handle. Qed.
+Print Assumptions C13_no_secrets_apis_return_the_handle.
+
+Theorem C13_no_secrets_handle_ok_iff :
+  forall (L : stdlib) ks h,
+    handle_no_secrets L (Some ks) = Ok h <->
+    (handle_from_proto L (Some ks) = Ok h /\ Forall (fun k => public_or_remote (key_material k)) (ks_keys ks)).
+Proof. exact no_secrets_ok_iff. Qed.
+Print Assumptions C13_no_secrets_handle_ok_iff.
+
+Theorem C13_read_no_secrets_ok_iff :
+  forall (L : stdlib) b h,
+    read_no_secrets L b = Ok h <->
+    exists ks, decode_keyset b = Some ks /\ handle_from_proto L (Some ks) = Ok h
+               /\ Forall (fun k => public_or_remote (key_material k)) (ks_keys ks).
+Proof. exact read_no_secrets_ok_iff. Qed.
+Print Assumptions C13_read_no_secrets_ok_iff.
+
 Theorem C13_no_secrets_handle_holds_only_public_or_remote :
   forall (L : stdlib) ks h,
     handle_no_secrets L ks = Ok h ->
@@ -59,6 +88,68 @@ Theorem C13_write_no_secrets_iff :
     ((exists b, write_no_secrets h = Ok b) <-> Forall (fun e => public_or_remote (out_material e)) h).
 Proof. exact write_no_secrets_iff. Qed.
 Print Assumptions C13_write_no_secrets_iff.
+
+(* ---- every transcribed key type (37 of the 42 registered ones) ---- *)
+
+(* Which material a key object holds is decided by its type URL alone: for
+   every handle the model accepts, the material type (and the prefix type) each
+   key's serializer writes is the one registered for its URL; only keys of
+   unregistered URLs (the fallback key) keep the label they came with. *)
+Theorem C13_material_is_decided_by_type_url :
+  forall (L : stdlib) ks h, handle_from_proto L (Some ks) = Ok h ->
+    Forall (fun e => out_material e = url_material (eurl e) (emat e)
+                     /\ shown_prefix e = reported_prefix (eurl e) (eprefix e)) h.
+Proof. exact out_material_by_url. Qed.
+Print Assumptions C13_material_is_decided_by_type_url.
+
+(* the table: 15 symmetric, 10 private and 12 public key types; any other URL:
+   the label *)
+Theorem C13_type_url_material_table :
+  Forall (fun u => forall label, url_material u label = km_symmetric) symmetric_urls
+  /\ Forall (fun u => forall label, url_material u label = km_private) private_urls
+  /\ Forall (fun u => forall label, url_material u label = km_public) public_urls
+  /\ (forall u label, url_tag u = 0 -> url_material u label = label)
+  /\ (forall u, url_tag u = 0 <-> ~ In u (symmetric_urls ++ private_urls ++ public_urls)).
+Proof. exact url_material_table. Qed.
+Print Assumptions C13_type_url_material_table.
+
+(* The parsers of 32 of the 37 types compare the label with the material of
+   the type (all but HMAC, AES-CMAC, HKDF-PRF, HMAC-PRF, AES-CMAC-PRF): an
+   accepted key of such a type is labelled with what it holds. *)
+Theorem C13_accepted_label_is_material :
+  forall (L : stdlib) ks h, handle_from_proto L (Some ks) = Ok h ->
+    Forall (fun e => label_checked (url_tag (eurl e)) = true -> emat e = out_material e) h.
+Proof. exact accepted_label_is_material. Qed.
+Print Assumptions C13_accepted_label_is_material.
+
+(* Hence on keysets of those types the no-secrets import and export agree, and
+   both fail exactly when some key holds symmetric or private material BY ITS
+   TYPE - for private keys of every modelled kind (ECDSA, Ed25519, RSA, ECIES,
+   HPKE, JWT ECDSA/RSA, SLH-DSA) at any position. *)
+Theorem C13_no_secrets_import_and_export_agree :
+  forall (L : stdlib) ks h,
+    handle_from_proto L (Some ks) = Ok h ->
+    Forall (fun e => label_checked (url_tag (eurl e)) = true) h ->
+    (handle_no_secrets L (Some ks) = Ok h <-> exists b, write_no_secrets h = Ok b)
+    /\ (handle_no_secrets L (Some ks) = Err <-> Exists (fun e => ~ public_or_remote (url_material (eurl e) (emat e))) h).
+Proof. exact no_secrets_import_export_agree. Qed.
+Print Assumptions C13_no_secrets_import_and_export_agree.
+
+(* REFUTED for the other five: "NewHandleWithNoSecrets / ReadWithNoSecrets fail
+   for every keyset containing symmetric key material" is false when the
+   material is mislabelled: an HmacKey labelled ASYMMETRIC_PUBLIC is imported
+   (the parser never looks at the label), the key object holds symmetric
+   material, and WriteWithNoSecrets refuses to write the handle back.  The
+   witness is confirmed on the implementation by the differential run
+   (generator scenario "mislabel"; corpus line in corpus/C13.txt). *)
+Theorem C13_no_secrets_import_trusts_the_label_refuted :
+  exists ks h e,
+    handle_no_secrets refuting_std (Some ks) = Ok h
+    /\ read_no_secrets refuting_std (ser_keyset ks) = Ok h
+    /\ In e h /\ out_material e = km_symmetric /\ url_material (eurl e) (emat e) = km_symmetric
+    /\ write_no_secrets h = Err.
+Proof. exact no_secrets_import_trusts_the_label_refuted. Qed.
+Print Assumptions C13_no_secrets_import_trusts_the_label_refuted.
 
 (* Non-interference: KeysetInfo() - and String(), its text form, whatever the
    text encoder - depend only on (type url, status, id, prefix type, primary):
@@ -118,21 +209,130 @@ Proof.
 Qed.
 Print Assumptions C13_encrypted_read_only_if_aead_accepts.
 
-(* For an AEAD that decrypts only under the same key and associated data:
-   what Write produced is unreadable with another key or other associated
-   data, and with the right ones the reader sees exactly the serialized keyset. *)
+(* ---- the writers and the readers are inverse ---- *)
+
+(* proto.Unmarshal (Untrusted.decode_keyset) reads back what proto.Marshal
+   (Secrets.ser_keyset, written independently) wrote, for every keyset a Go
+   tinkpb.Keyset can hold (uint32/enum fields in range, type URLs valid UTF-8,
+   no nil key) shorter than 2^64 bytes; and everything Unmarshal returns is
+   such a keyset. *)
+Theorem C13_written_keyset_decodes :
+  forall ks, wire_keyset ks -> blen (ser_keyset ks) < 18446744073709551616 ->
+    decode_keyset (ser_keyset ks) = Some ks.
+Proof. exact decode_ser_wire_keyset. Qed.
+Print Assumptions C13_written_keyset_decodes.
+
+Theorem C13_unmarshal_yields_wire_keysets :
+  forall b ks, decode_keyset b = Some ks -> wire_keyset ks.
+Proof. exact decode_keyset_wire. Qed.
+Print Assumptions C13_unmarshal_yields_wire_keysets.
+
+(* entriesToProtoKeyset inverts keysetToEntries on every handle whose entries
+   carry the material label and prefix type their serializer writes (true of
+   everything Tink itself wrote): the keyset written is the keyset read. *)
+Theorem C13_entries_to_proto_keyset_inverts :
+  forall (L : stdlib) ks h,
+    handle_from_proto L (Some ks) = Ok h -> canonical_labels h -> proto_of_handle h = ks.
+Proof. exact proto_of_handle_inverse. Qed.
+Print Assumptions C13_entries_to_proto_keyset_inverts.
+
+(* WriteWithNoSecrets then ReadWithNoSecrets gives the same handle back. *)
+Theorem C13_write_then_read_no_secrets :
+  forall (L : stdlib) ks h,
+    handle_from_proto L (Some ks) = Ok h -> wire_keyset ks -> canonical_labels h ->
+    Forall (fun e => public_or_remote (out_material e)) h ->
+    blen (ser_keyset (proto_of_handle h)) < 18446744073709551616 ->
+    write_no_secrets h = Ok (ser_keyset (proto_of_handle h))
+    /\ read_no_secrets L (ser_keyset (proto_of_handle h)) = Ok h.
+Proof. exact write_then_read_no_secrets. Qed.
+Print Assumptions C13_write_then_read_no_secrets.
+
+(* ---- the encrypted keyset ---- *)
+
+(* Unconditionally (any function pair, no law): whoever reads what Write wrote
+   has made the AEAD open exactly the ciphertext Write produced, under the
+   READER's key and associated data, and the plaintext it got is a keyset
+   accepted as the returned handle.  Reading with a wrong key or wrong
+   associated data is therefore an AEAD forgery / collision event. *)
+Theorem C13_read_of_written_opens_the_ciphertext :
+  forall (L : stdlib) (K : Type)
+         (aead_enc : K -> bytes -> bytes -> bytes -> bytes) (aead_dec : K -> bytes -> bytes -> option bytes)
+         k k' h iv ad ad' b h',
+    write_encrypted_binary (aead_enc k) h iv ad = Ok b ->
+    blen (encrypted_ct (aead_enc k) h iv ad) < 18446744073709551616 ->
+    read_encrypted L (aead_dec k') b ad' = Ok h' ->
+    exists pt ks, aead_dec k' (aead_enc k iv (ser_keyset (proto_of_handle h)) ad) ad' = Some pt
+      /\ decode_keyset pt = Some ks /\ accepted_as ks h'.
+Proof. exact read_of_written_opens_the_ciphertext. Qed.
+Print Assumptions C13_read_of_written_opens_the_ciphertext.
+
+(* Under the AEAD authenticity law - Decrypt succeeds only on outputs of
+   Encrypt under the same key and the same associated data - and provided the
+   ciphertext Write produced is not also an output of Encrypt under another key
+   or other associated data (a statement about Encrypt alone): reading it with
+   another key or other associated data is an error.  Derived through the
+   EncryptedKeyset framing (the reader recovers exactly the written ciphertext). *)
 Theorem C13_wrong_key_or_ad_rejected :
   forall (L : stdlib) (K : Type)
          (aead_enc : K -> bytes -> bytes -> bytes -> bytes) (aead_dec : K -> bytes -> bytes -> option bytes),
-    (forall k k' iv pt ad ad', (k' <> k \/ ad' <> ad) -> aead_dec k' (aead_enc k iv pt ad) ad' = None) ->
+    (forall k ct ad pt, aead_dec k ct ad = Some pt -> exists iv, ct = aead_enc k iv pt ad) ->
     forall k k' h iv ad ad' b,
       write_encrypted_binary (aead_enc k) h iv ad = Ok b ->
       blen (encrypted_ct (aead_enc k) h iv ad) < 18446744073709551616 ->
+      (forall k0 iv0 pt0 ad0, aead_enc k0 iv0 pt0 ad0 = encrypted_ct (aead_enc k) h iv ad -> k0 = k /\ ad0 = ad) ->
       (k' <> k \/ ad' <> ad) ->
       read_encrypted L (aead_dec k') b ad' = Err.
-Proof. exact wrong_key_or_ad_rejected. Qed.
+Proof. exact wrong_key_or_ad_rejected_enc. Qed.
 Print Assumptions C13_wrong_key_or_ad_rejected.
 
+(* the same relative to an arbitrary record [sealed] of the Encrypt calls made *)
+Theorem C13_wrong_key_or_ad_rejected_sealed :
+  forall (L : stdlib) (K : Type)
+         (aead_enc : K -> bytes -> bytes -> bytes -> bytes) (aead_dec : K -> bytes -> bytes -> option bytes)
+         (sealed : K -> bytes -> bytes -> bytes -> Prop),
+    (forall k ct ad pt, aead_dec k ct ad = Some pt -> sealed k ad pt ct) ->
+    forall k k' h iv ad ad' b,
+      write_encrypted_binary (aead_enc k) h iv ad = Ok b ->
+      blen (encrypted_ct (aead_enc k) h iv ad) < 18446744073709551616 ->
+      (forall k0 ad0 pt0, sealed k0 ad0 pt0 (encrypted_ct (aead_enc k) h iv ad) -> k0 = k /\ ad0 = ad) ->
+      (k' <> k \/ ad' <> ad) ->
+      read_encrypted L (aead_dec k') b ad' = Err.
+Proof. exact wrong_key_or_ad_rejected_auth. Qed.
+Print Assumptions C13_wrong_key_or_ad_rejected_sealed.
+
+(* With the right key and associated data, for every AEAD whose Decrypt inverts
+   Encrypt: the reader returns THE handle that was written - for every handle
+   made from a keyset a Go tinkpb.Keyset can hold, in particular every handle
+   that was itself read from bytes. *)
+Theorem C13_right_key_reads_the_handle :
+  forall (L : stdlib) (K : Type)
+         (aead_enc : K -> bytes -> bytes -> bytes -> bytes) (aead_dec : K -> bytes -> bytes -> option bytes),
+    (forall k iv pt ad, aead_dec k (aead_enc k iv pt ad) ad = Some pt) ->
+    forall k ks h iv ad b,
+      handle_from_proto L (Some ks) = Ok h -> wire_keyset ks -> canonical_labels h ->
+      write_encrypted_binary (aead_enc k) h iv ad = Ok b ->
+      blen (encrypted_ct (aead_enc k) h iv ad) < 18446744073709551616 ->
+      blen (ser_keyset (proto_of_handle h)) < 18446744073709551616 ->
+      read_encrypted L (aead_dec k) b ad = Ok h.
+Proof. exact right_key_reads_the_handle. Qed.
+Print Assumptions C13_right_key_reads_the_handle.
+
+Theorem C13_right_key_reads_the_handle_read_from_bytes :
+  forall (L : stdlib) (K : Type)
+         (aead_enc : K -> bytes -> bytes -> bytes -> bytes) (aead_dec : K -> bytes -> bytes -> option bytes),
+    (forall k iv pt ad, aead_dec k (aead_enc k iv pt ad) ad = Some pt) ->
+    forall k b0 h iv ad b,
+      read L b0 = Ok h -> canonical_labels h ->
+      write_encrypted_binary (aead_enc k) h iv ad = Ok b ->
+      blen (encrypted_ct (aead_enc k) h iv ad) < 18446744073709551616 ->
+      blen (ser_keyset (proto_of_handle h)) < 18446744073709551616 ->
+      read_encrypted L (aead_dec k) b ad = Ok h.
+Proof. exact right_key_reads_the_handle_read. Qed.
+Print Assumptions C13_right_key_reads_the_handle_read_from_bytes.
+
+(* For ANY handle (also one whose labels are not the serializer's, e.g. a
+   LEGACY AES-GCM key, which is written as CRUNCHY): what the reader sees is
+   exactly the serialized keyset. *)
 Theorem C13_right_key_reads_the_serialized_keyset :
   forall (L : stdlib) (K : Type)
          (aead_enc : K -> bytes -> bytes -> bytes -> bytes) (aead_dec : K -> bytes -> bytes -> option bytes),
@@ -145,7 +345,7 @@ Theorem C13_right_key_reads_the_serialized_keyset :
       | Some ks => handle_from_proto L (Some ks)
       | None => Err
       end.
-Proof. exact right_key_reads_serialized_keyset. Qed.
+Proof. intros L K e d C. exact (right_key_reads_serialized_keyset L K e d C). Qed.
 Print Assumptions C13_right_key_reads_the_serialized_keyset.
 
 (* Non-vacuity.  A toy AEAD satisfying both laws (the "ciphertext" carries key
@@ -180,31 +380,106 @@ Proof.
   destruct (beq ad ad') eqn:E3; [|reflexivity]. apply beq_eq in E3. subst. destruct H; congruence.
 Qed.
 
+(* the toy AEAD also satisfies the authenticity law and never produces the
+   same ciphertext under two keys or two associated data *)
+Lemma toy_authentic : forall k ct ad pt, toy_dec k ct ad = Some pt -> exists iv, ct = toy_enc k iv pt ad.
+Proof.
+  intros k ct ad pt H. exists []. unfold toy_dec, toy_enc in *.
+  destruct ct as [|k' [|n rest]]; try discriminate.
+  destruct (k' =? k) eqn:E1; [|discriminate]. destruct (n =? blen ad) eqn:E2; [|discriminate].
+  cbn [andb] in H. destruct (beq (firstn (length ad) rest) ad) eqn:E3; [|discriminate].
+  apply N.eqb_eq in E1, E2. apply beq_eq in E3. inversion H; subst. f_equal. f_equal.
+  rewrite <- E3 at 1. symmetry. apply firstn_skipn.
+Qed.
+
+Lemma toy_no_collision : forall k0 iv0 pt0 ad0 k iv pt ad,
+  toy_enc k0 iv0 pt0 ad0 = toy_enc k iv pt ad -> k0 = k /\ ad0 = ad.
+Proof.
+  unfold toy_enc. intros k0 iv0 pt0 ad0 k iv pt ad H. inversion H as [[E1 E2 E3]]. split; [reflexivity|].
+  assert (L : length ad0 = length ad) by (unfold blen in E2; apply Nnat.Nat2N.inj; exact E2).
+  apply (f_equal (firstn (length ad0))) in E3. rewrite firstn_app, Nat.sub_diag, firstn_all, firstn_O, app_nil_r in E3.
+  rewrite L, firstn_app, Nat.sub_diag, firstn_all, firstn_O, app_nil_r in E3. exact E3.
+Qed.
+
 Definition ex13_keyset : bytes :=
   [8; 9]
   ++ [18; 13; 10; 5; 10; 1; 120; 24; 4; 16; 1; 24; 9; 32; 3]
   ++ [18; 80; 10; 72; 10; 48] ++ u_aes_gcm ++ [18; 18; 26; 16] ++ repeat 7 16%nat ++ [24; 1] ++ [16; 1; 24; 5; 32; 1].
 
+(* a standard library that refuses everything (the examples need none of it) *)
+Definition ex13_std : stdlib :=
+  mkStd (fun _ _ => false) (fun _ _ => None) (fun _ => []) (fun _ _ => None) (fun _ _ => [])
+        (fun _ _ _ _ _ => None) (fun _ _ _ _ _ _ _ _ => false).
+Definition ex13_handle : handle :=
+  Eval vm_compute in match read ex13_std ex13_keyset with Ok h => h | _ => [] end.
+
 Example C13_nonvacuous :
-  (* a standard library that refuses everything (the example needs none of it) *)
-  let p := mkStd (fun _ _ => false) (fun _ _ => None) (fun _ => []) (fun _ _ => None) (fun _ _ => [])
-                 (fun _ _ _ _ _ => None) (fun _ _ _ _ _ _ _ _ => false) in
-  exists h b,
+  let p := ex13_std in
+  let h := ex13_handle in
+  exists b,
     read p ex13_keyset = Ok h
     /\ read_no_secrets p ex13_keyset = Err
     /\ write_no_secrets h = Err
     /\ info_of_handle h = mkInfo 9 [mkKI [120] 1 9 3; mkKI u_aes_gcm 1 5 1]
+    /\ canonical_labels h
+    /\ ser_keyset (proto_of_handle h) = ex13_keyset
     /\ write_encrypted_binary (toy_enc 42) h [] [1; 2] = Ok b
-    /\ (exists h', read_encrypted p (toy_dec 42) b [1; 2] = Ok h' /\ info_of_handle h' = info_of_handle h)
+    /\ read_encrypted p (toy_dec 42) b [1; 2] = Ok h
     /\ read_encrypted p (toy_dec 43) b [1; 2] = Err
     /\ read_encrypted p (toy_dec 42) b [1; 3] = Err.
 Proof.
-  cbv zeta. eexists. eexists.
+  cbv zeta. eexists.
   split; [vm_compute; reflexivity|].
   split; [vm_compute; reflexivity|].
   split; [vm_compute; reflexivity|].
   split; [vm_compute; reflexivity|].
+  split; [repeat constructor|].
   split; [vm_compute; reflexivity|].
-  split; [eexists; split; vm_compute; reflexivity|].
+  split; [vm_compute; reflexivity|].
+  split; [vm_compute; reflexivity|].
   split; vm_compute; reflexivity.
+Qed.
+
+(* a public-only keyset of a label-checking type (an Ed25519 public key): the
+   no-secrets APIs return the handle, WriteWithNoSecrets writes it and
+   ReadWithNoSecrets reads the same handle back; replacing the key by the
+   AES-GCM key above makes import and export fail together *)
+Definition ex13_public_keyset : keyset :=
+  mkKS 5 [Some (mkPK (Some (mkKD u_ed25519_pub ([18; 32] ++ repeat 3 32%nat) km_public)) st_enabled 5 pt_tink)].
+Definition ex13_public_handle : handle :=
+  Eval vm_compute in match handle_from_proto ex13_std (Some ex13_public_keyset) with Ok h => h | _ => [] end.
+
+Example C13_nonvacuous_public :
+  let h := ex13_public_handle in
+  handle_from_proto ex13_std (Some ex13_public_keyset) = Ok h
+  /\ wire_keyset ex13_public_keyset /\ canonical_labels h
+  /\ Forall (fun e => label_checked (url_tag (eurl e)) = true) h
+  /\ Forall (fun e => public_or_remote (out_material e)) h
+  /\ handle_no_secrets ex13_std (Some ex13_public_keyset) = Ok h
+  /\ read_no_secrets ex13_std (ser_keyset (proto_of_handle h)) = Ok h
+  /\ (exists ks' h', handle_from_proto ex13_std (Some ks') = Ok h'
+        /\ Forall (fun e => label_checked (url_tag (eurl e)) = true) h'
+        /\ handle_no_secrets ex13_std (Some ks') = Err /\ write_no_secrets h' = Err).
+Proof.
+  cbv zeta.
+  split; [vm_compute; reflexivity|].
+  split; [split; [vm_compute; reflexivity | repeat constructor; eexists; (split; [reflexivity|]); repeat split; vm_compute; reflexivity]|].
+  split; [repeat constructor|].
+  split; [repeat constructor|].
+  split; [repeat constructor; right; reflexivity || left; reflexivity|].
+  split; [vm_compute; reflexivity|].
+  split; [vm_compute; reflexivity|].
+  exists (mkKS 5 [Some (mkPK (Some (mkKD u_aes_gcm ([26; 16] ++ repeat 7 16%nat) km_symmetric)) st_enabled 5 pt_tink)]).
+  eexists. split; [vm_compute; reflexivity|]. split; [repeat constructor|]. split; vm_compute; reflexivity.
+Qed.
+
+(* the hypotheses of C13_wrong_key_or_ad_rejected and C13_right_key_reads_the_handle
+   are met by the toy AEAD on the handle above *)
+Example C13_nonvacuous_aead_laws :
+  (forall k ct ad pt, toy_dec k ct ad = Some pt -> exists iv, ct = toy_enc k iv pt ad)
+  /\ (forall k iv pt ad, toy_dec k (toy_enc k iv pt ad) ad = Some pt)
+  /\ (forall k0 iv0 pt0 ad0, toy_enc k0 iv0 pt0 ad0 = encrypted_ct (toy_enc 42) ex13_handle [] [1; 2] -> k0 = 42 /\ ad0 = [1; 2]).
+Proof.
+  split; [exact toy_authentic|]. split; [exact toy_correct|].
+  intros k0 iv0 pt0 ad0 H. unfold encrypted_ct in H. eapply toy_no_collision. exact H.
 Qed.
